@@ -48,7 +48,7 @@ NS = [1, 2, 3, 7, 20]
 NB = [0, 1, 3, 10]
 FOUTS = ["scalar", "vector", "tuple", "ident"]     # ident: the integrand returns the sample tensor ITSELF
 KINDS = ["explicit", "nn", "edit", "absent"]
-ORDERS = [(1, "lin"), (2, "lin"), (2, "sq")]
+ORDERS = [(1, "lin"), (2, "lin"), (2, "sq"), (2, "sq0")]
 
 
 def _sampler_cfgs_all():
@@ -120,6 +120,13 @@ def cases(tier, seed):
         for step in (1.0, 0.5):
             for ms in (0, 1, 2):
                 add({"sampler": "mh_drift", "nsamples": ns, "nburnout": nb, "step": step, "mseed": ms})
+    # block D': densities with bounded support (log p NaN / -inf outside), chain started near the boundary
+    for (ns, nb) in ((40, 10), (200, 0), (12, 60)):
+        for step in (1.0, 0.5):
+            for ms in (0, 1, 2):
+                for outside in ("nan", "-inf"):
+                    add({"sampler": "mh_support", "nsamples": ns, "nburnout": nb, "step": step, "mseed": ms,
+                         "outside": outside})
     # block B: every placement of the parameters
     for sc in _sampler_cfgs_B(tier):
         for fo in FOUTS:
@@ -310,8 +317,51 @@ def _run_mh_drift(cfg):
     return {"viol": viol, "obs": obs, "status": "violation" if viol else "ok", "n": 1}
 
 
+def _run_mh_support(cfg):
+    """a density with bounded support whose logarithm is NaN (not -inf) outside it: Gamma(3, 1) written as
+    2 log x - x.  A proposal outside the support has no acceptance probability (NaN): it must not become a state
+    of the chain, so every evaluation point of f lies in the support - for every seed (no statistics involved);
+    the value is the mean of f over the collected samples."""
+    from xitorch.integrate import mcquad
+    ns, nb, step = cfg["nsamples"], cfg["nburnout"], cfg["step"]
+    plog, flog = [], []
+    neg_inf = cfg.get("outside") == "-inf"
+
+    def logp(x):
+        plog.append(float(x.detach().reshape(-1)[0]))
+        if neg_inf:
+            return torch.where(x > 0, 2.0 * torch.log(x.clamp(min=1e-300)) - x, torch.full_like(x, -math.inf)).sum()
+        return (2.0 * torch.log(x) - x).sum()
+
+    def f(x):
+        flog.append(float(x.detach().reshape(-1)[0]))
+        return x * x
+    x0 = torch.full((1,), 0.3, dtype=torch.float64)
+    torch.manual_seed(5000 + cfg["mseed"])
+    o = call(mcquad, f, logp, x0, fparams=(), pparams=(), method="mh", nsamples=ns, nburnout=nb, step_size=step)
+    if o.exc is not None:
+        return {"viol": [V("exception:" + _sig(o.exc), {"phase": "forward"}, phase="forward")],
+                "obs": {"exc": _sig(o.exc)}, "status": "exception", "n": 1}
+    viol = []
+    samples = flog[-ns:]
+    proposals_outside = sum(1 for v in plog if not v > 0)
+    outside = [v for v in flog if not v > 0]
+    obs = {"p_calls": len(plog), "f_calls": len(flog), "proposals_outside": proposals_outside}
+    if outside:
+        viol.append(V("mh-sample-outside-the-support-of-p", {"n_outside": len(outside), "first": outside[0],
+                                                              "nsamples": ns, "proposals_outside": proposals_outside}))
+    val = float(o.value.detach().reshape(-1)[0])
+    ref = sum(v * v for v in samples) / max(1, len(samples))
+    if not abs(val - ref) <= 1e-12 * max(1.0, abs(ref)):
+        viol.append(V("value-is-not-the-weighted-sample-mean", {"observed": val, "reference": ref, "mh_support": True}))
+    return {"viol": viol, "obs": obs, "status": "violation" if viol else "ok", "n": 1,
+            "trivial": proposals_outside == 0}
+
+
 def run_case(cfg):
     from xitorch.integrate import mcquad
+    if cfg["sampler"] == "mh_support":
+        return _run_mh_support(cfg)
     if cfg["sampler"] == "mh_drift":
         return _run_mh_drift(cfg)
     sampler = cfg["sampler"]
@@ -637,6 +687,10 @@ def run_case(cfg):
     def objective(vals):
         if loss == "lin":
             return sum((v * t).sum() for v, t in zip(cot, vals))
+        if loss == "sq0":
+            # least squares at a perfect fit: the cotangent reaching mcquad is exactly zero, the second-order
+            # content (Gauss-Newton term) is not
+            return sum((v * (t - t.detach()) * (t - t.detach())).sum() for v, t in zip(cot, vals))
         return sum((v * t * t).sum() for v, t in zip(cot, vals))
     L = objective(ys)
     if not L.requires_grad:
@@ -690,7 +744,7 @@ def run_case(cfg):
         mK += abs(Wn[i]) * K
     M = max(M, mF * mS * mS * mK)
     ymax = max(1.0, max(float(t.detach().abs().max()) for t in ys))
-    if loss == "sq":
+    if loss in ("sq", "sq0"):
         M = M * 2 * ymax * (1 + mF)
     tol1 = 1e3 * ns * eps * M * cmax
     obs["M"] = rnd(M, 3)
